@@ -2129,7 +2129,8 @@ double BW_MidiSequencer::Tick(double s, double granularity)
     if(m_currentPosition.wait < 0.0) // Avoid negative delay value!
         return 0.0;
 
-    return m_currentPosition.wait;
+    // The wait is measured in song time, the caller counts real time
+    return m_currentPosition.wait / m_tempoMultiplier;
 }
 
 
@@ -2210,7 +2211,8 @@ double BW_MidiSequencer::seek(double seconds, const double granularity)
     m_time.delay = m_currentPosition.wait;
 
     m_loopEnabled = loopFlagState;
-    return m_currentPosition.wait;
+    // The wait is measured in song time, the caller counts real time
+    return m_currentPosition.wait / m_tempoMultiplier;
 }
 
 double BW_MidiSequencer::tell()
